@@ -82,7 +82,7 @@ Annotation      <== name annotargs?
 -- Preprocessor replaceable nodes
 PreprocessExpr  <== `#[` {@expr->0} @`]#`
 PreprocessName  <== `#|` {@expr->0} @`|#`
-ppcallprim : PreprocessExpr <== {NAME->0} `!` &callsuffix
+ppcallprim : PreprocessExpr <== {NAME->0} `!` &(`(` / `{` / `:` / STRING)
 
 -- Suffixes
 Call            <== callargs
